@@ -1,0 +1,9 @@
+//go:build verif
+
+package protoproducer
+
+// VerifSetFormatter attaches a formatter to a hand-built message, as Produce does for the messages
+// it creates. Only compiled with the `verif` build tag (verification harness).
+func (m *ProtoProducerMessage) VerifSetFormatter(f FormatterMapper) {
+	m.formatter = f
+}
